@@ -322,9 +322,22 @@ class GriffeLoader:
             external: When true, try to load unspecified modules to expand wildcards.
             seen: Used to avoid infinite recursion.
         """
+        seen = seen or set()
+        if obj.path not in seen:
+            self._expand_object_wildcards(obj, external=external, seen=seen)
+
+        # Recurse in submodules, now that this object holds the names it imports with wildcards:
+        # a submodule can import them in turn (`from . import *`, `from package import *`).
+        for member in list(obj.members.values()):
+            if not member.is_alias and member.is_module:
+                self.expand_wildcards(member, external=external, seen=seen)  # type: ignore[arg-type]
+
+    def _expand_object_wildcards(self, obj: Object, *, external: bool | None, seen: set) -> None:
+        # Expand the wildcards of this object only, following the imported modules (expanding theirs first),
+        # but without walking down their submodules: a submodule importing from an object
+        # that is still being expanded would collect an incomplete set of names.
         expanded = []
         to_remove = []
-        seen = seen or set()
         seen.add(obj.path)
 
         # First we expand wildcard imports and store the objects in a temporary `expanded` variable,
@@ -360,7 +373,7 @@ class GriffeLoader:
                 # Recurse into this module, expanding wildcards there before collecting everything.
                 if target.path not in seen:
                     try:
-                        self.expand_wildcards(target, external=external, seen=seen)
+                        self._expand_object_wildcards(target, external=external, seen=seen)  # type: ignore[arg-type]
                     except (AliasResolutionError, CyclicAliasError) as error:
                         logger.debug("Could not expand wildcard import %s in %s: %s", member.name, obj.path, error)
                         continue
@@ -372,10 +385,6 @@ class GriffeLoader:
                     logger.debug("Could not expand wildcard import %s in %s: %s", member.name, obj.path, error)
                     continue
                 to_remove.append(member.name)
-
-            # Recurse in unseen submodules.
-            elif not member.is_alias and member.is_module and member.path not in seen:
-                self.expand_wildcards(member, external=external, seen=seen)  # type: ignore[arg-type]
 
         # Then we remove the members representing wildcard imports.
         for name in to_remove:
